@@ -69,6 +69,11 @@ class Folder:
                     dims.append(len(v))
                     v = v[0] if v else None
                 return dims
+            if node.attr in ("values", "indices"):
+                v = self.fold(node.value)
+                if isinstance(v, list) and len(v) == 2:
+                    return v[0] if node.attr == "values" else v[1]
+                raise Unfoldable(f"attribute {node.attr}")
             if node.attr in ("real", "imag"):
                 v = self.fold(node.value)
                 return _ew(lambda x: (x.real if node.attr == "real" else x.imag) if isinstance(x, complex) else (x if node.attr == "real" else 0.0), v)
